@@ -78,25 +78,22 @@ func (c *config) describe() []string {
 func TestProp(t *testing.T) {
 	env := vh.GetEnv()
 	rep := vh.NewReport("C13", "exploration")
-	rep.Rule("per generated route set (2-8 upstreams: simple routes incl. ports/twins/hosts shadowing a rewrite pattern; rewrite routes of 9 flavours incl. overlapping, unanchored, case-insensitive and catch-all patterns; one rule kind, optional own provider_slug, preserve_host, skip_auth per upstream) cases draw a Host class (exact, case variant, trailing dot, port variant, affix near-miss, unrelated, junk bytes, empty, missing, absolute-form target with a different Host header) x a credential class (none, good, cross-upstream, policy, default-slug, foreign-slug, revalidation-due, full login through /oauth2/callback); distinct = host class | route kind/flavour the reference router selects | #matching patterns | credential class | own-slug | rule kind | outcome, counted only when the proxy answered")
+	rep.Rule("stream c13: per generated route set (2-8 upstreams: simple routes incl. ports/twins/hosts shadowing a rewrite pattern; rewrite routes of 9 flavours incl. overlapping, unanchored, case-insensitive and catch-all patterns; one rule kind, optional own provider_slug, preserve_host, skip_auth per upstream) cases draw a Host class (exact, case variant, trailing dot, port variant, affix near-miss, unrelated, junk bytes, empty, missing, absolute-form target with a different Host header) x a credential class (none, good, cross-upstream, policy, default-slug, foreign-slug, revalidation-due, full login through /oauth2/callback); distinct = host class | route kind/flavour the reference router selects | #matching patterns | credential class | own-slug | rule kind | outcome, counted only when the proxy answered. stream c13-seq (history): per case a proxy stack of its own built from one of 6 purpose-made route sets (case-sensitive strict pattern followed by a lenient one; (?i) pattern next to a case-sensitive one; simple route + rewrite routes sharing the name modulo case/port/dot; port-sensitive patterns; two simple routes differing only in case; strict pattern alone) and a sequence of 2-6 requests whose Hosts are related variants of one exact host (case, trailing dot, port, near-twin served by another route, unroutable near-miss, absolute-form authority), variant-first and exact-first, each request judged like a single request; distinct = template | variant kind | order | length")
 	rep.Assume("header_overrides of an upstream are applied to every response its handler chain produces and to none other (used to observe which upstream handled a request)")
 	rep.Assume("the fake authenticator answers exactly as scripted; group membership of a session with no check due is 'as of the last check'")
 	rep.Assume("Host values containing bytes outside [A-Za-z0-9.:_-] or a missing Host header may be refused with 400 by the HTTP server before routing")
 
 	nConfigs := env.Pick(12, 150)
 	perConfig := env.Pick(250, 534)
-	only, skipAll := env.Only(stream)
-	if skipAll {
-		rep.Finish()
-		return
-	}
+	only, skipMain := env.Only(stream)
 	start := time.Now()
-	for ci := 0; ci < nConfigs; ci++ {
+	for ci := 0; ci < nConfigs && !skipMain; ci++ {
 		if only >= 0 && only/perConfig != ci {
 			continue
 		}
 		runConfig(rep, env, ci, perConfig, only)
 	}
+	runSeq(rep, env)
 	rep.Extra("wall_workload_s", time.Since(start).Seconds())
 	if e, n := atomic.LoadInt64(&clientErrors), atomic.LoadInt64(&requestsSent); e*50 > n {
 		rep.Inconclusive(fmt.Sprintf("%d of %d client requests failed at the transport level (nothing observed for them)", e, n))
@@ -108,7 +105,7 @@ func TestProp(t *testing.T) {
 		"back_channel_calls_checked": 10,
 	}
 	for k, v := range floors {
-		if only >= 0 {
+		if env.Replay != "" {
 			v = 0
 		}
 		rep.Floor(k, v)
@@ -119,9 +116,18 @@ func TestProp(t *testing.T) {
 }
 
 type runner struct {
-	rep *vh.Report
-	c   *config
-	ps  *sut.ProxyStack
+	rep    *vh.Report
+	c      *config
+	ps     *sut.ProxyStack
+	stream string
+	after  string // history stream: what kinds of related requests this stack has already seen (signature suffix)
+}
+
+func (rn *runner) violate(i int, sig, what string, kc kase) {
+	if rn.after != "" {
+		sig += " after=" + rn.after
+	}
+	rn.rep.Violate(rn.stream, i, sig, what, kc)
 }
 
 func runConfig(rep *vh.Report, env vh.Env, ci, perConfig, only int) {
@@ -148,7 +154,7 @@ func runConfig(rep *vh.Report, env vh.Env, ci, perConfig, only int) {
 		rep.Count("upstream_flavour_"+u.flavour, 1)
 	}
 	c.desc = c.describe()
-	rn := &runner{rep: rep, c: c, ps: ps}
+	rn := &runner{rep: rep, c: c, ps: ps, stream: stream}
 	lo := ci * perConfig
 	o := -1
 	if only >= 0 {
@@ -388,17 +394,29 @@ func refusalReason(u *upstream, eff string, ck cookieInfo, strict bool) string {
 func (rn *runner) judge(i int, step string, p probe, ck cookieInfo, rs *sut.Resp, hits []sut.Hit, calls []sut.AuthCall) {
 	c, ps, rep := rn.c, rn.ps, rn.rep
 	lit := c.resolve(p.Eff)
-	nrm := c.resolve(norm(p.Eff))
-	strict := same(lit, nrm)
+	// the statement settles a Host that IS a configured simple `from`; otherwise the case-insensitive /
+	// dot-less reading of the name is an equally allowed answer wherever it differs from the literal one
+	var nrms []resolution
+	if !lit.exact {
+		for _, n := range c.resolveNorm(p.Eff) {
+			if !same(lit, n) {
+				nrms = append(nrms, n)
+			}
+		}
+	}
+	strict := len(nrms) == 0
 	kc := kase{Index: i, Config: c.ci, Step: step, Probe: p, Routes: c.desc, Cookie: ck.class, Due: ck.due, MemberOf: ck.memberOf, Status: rs.Status}
 	kc.Expected = "none"
 	if lit.u != nil {
 		kc.Expected, kc.ExpAddr = lit.u.tag, lit.addr
 	}
 	if !strict {
-		kc.Alt = "none"
-		if nrm.u != nil {
-			kc.Alt = nrm.u.tag
+		for _, n := range nrms {
+			if n.u != nil {
+				kc.Alt += n.u.tag + " "
+			} else {
+				kc.Alt += "none "
+			}
 		}
 	}
 	if ck.sess != nil {
@@ -408,7 +426,7 @@ func (rn *runner) judge(i int, step string, p probe, ck cookieInfo, rs *sut.Resp
 		kc.HitBackend = append(kc.HitBackend, h.Backend)
 		kc.HitHost = append(kc.HitHost, h.Host)
 	}
-	viol := func(sig, what string) { rep.Violate(stream, i, sig, what, kc) }
+	viol := func(sig, what string) { rn.violate(i, sig, what, kc) }
 
 	if rs.Err != nil {
 		rep.Count("client_errors", 1)
@@ -434,12 +452,13 @@ func (rn *runner) judge(i int, step string, p probe, ck cookieInfo, rs *sut.Resp
 	rep.Count("host_class_"+p.Class, 1)
 	allowed := []resolution{lit}
 	if !strict {
-		allowed = append(allowed, nrm)
+		allowed = append(allowed, nrms...)
 		rep.Count("dont_care_host_name_variants", 1)
 	}
-	nilAllowed := false
+	nilAllowed, allNil := false, true
 	for _, a := range allowed {
 		nilAllowed = nilAllowed || a.u == nil
+		allNil = allNil && a.u == nil
 	}
 	if i%389 == 0 {
 		rep.Sample(kc)
@@ -482,7 +501,7 @@ func (rn *runner) judge(i int, step string, p probe, ck cookieInfo, rs *sut.Resp
 	// backend selection
 	for _, h := range hits {
 		if handled == nil {
-			if lit.u == nil && (strict || nrm.u == nil) {
+			if allNil {
 				viol("backend: hit-for-unroutable-host hostclass="+p.Class, fmt.Sprintf("Host %q matches no route but backend %s was reached", p.Eff, h.Backend))
 			} else if tag == "" {
 				viol("backend: hit-without-upstream-handler", fmt.Sprintf("backend %s was reached by a request no upstream handler answered", h.Backend))
@@ -727,7 +746,7 @@ func (rn *runner) loginCase(r *rand.Rand, i int, p probe, lit resolution) {
 	}
 	rep.Count("requests", 1)
 	kc := kase{Index: i, Config: c.ci, Step: "login-callback", Probe: p, Routes: c.desc, Expected: u.tag, Cookie: "login", Email: email, MemberOf: memberOf, Status: lr.Callback.Status}
-	viol := func(sig, what string) { rep.Violate(stream, i, sig, what, kc) }
+	viol := func(sig, what string) { rn.violate(i, sig, what, kc) }
 	if lr.Callback.Err != nil {
 		rep.Count("client_errors", 1)
 		return
